@@ -844,6 +844,49 @@ def r4c_copy_of_a_paragraph(rep, src):
                     rep.ok('C10.R4', fn.site, what, 'added once, parent link re-targeted')
 
 
+def r7_copy_protocol(rep, src):
+    """a paragraph that was made by copy.deepcopy() can be appended to a document (C10.R4) and is then a paragraph of the document like any
+    other: the class that keeps its fields in a linked list -- which rebuilds itself with new nodes when it is copied (its own
+    __reduce__ in _util) -- NEXT TO a table of the nodes of that list says itself how it is copied; copied attribute by attribute, the
+    table would refer to nodes whose links lead into the list of the original, and deleting or moving a field of the copy would change
+    the original paragraph."""
+    PROT = ('__deepcopy__', '__reduce__', '__reduce_ex__', '__getstate__')
+    util = src.mod('_util')
+    mod = src.mod(PM)
+    rebuilt = [c_ for c_ in util.classes if any(util.method(c_, m_) is not None for m_ in PROT)]
+    if 'LinkedList' not in rebuilt:
+        raise AnalysisError('_util:LinkedList has no copy protocol of its own (decided under C09.R5)')
+    n = 0
+    for cname in sorted(mod.classes):
+        init = mod.funcs.get(cname + '.__init__')
+        if init is None:
+            continue
+        inner, tables = [], []
+        for st in ast.walk(init.node):
+            if isinstance(st, (ast.Assign, ast.AnnAssign)):
+                tgt = st.targets[0] if isinstance(st, ast.Assign) else st.target
+                v = st.value
+                if not (isinstance(tgt, ast.Attribute) and norm(tgt.value) == 'self' and v is not None):
+                    continue
+                if isinstance(v, ast.Call) and isinstance(v.func, ast.Name) and v.func.id in rebuilt:
+                    inner.append((tgt.attr, v.func.id))
+                elif isinstance(v, (ast.Dict, ast.List, ast.Set)) or (isinstance(v, ast.Call) and norm(v.func) in ('dict', 'list', 'set')):
+                    tables.append(tgt.attr)
+        if not inner or not tables:
+            continue
+        n += 1
+        what = 'a field list kept next to a table of its nodes is copied by a protocol of the class'
+        if any(mod.method(cname, m_) is not None for m_ in PROT):
+            rep.ok('C10.R7', '%s:%s' % (PM, cname), what, '%s (%s next to %s)' % (cname, ', '.join('%s: %s' % x for x in inner), ', '.join(tables)))
+        else:
+            rep.fail('C10.R7', '%s:%s' % (PM, cname), what, '%s keeps self.%s (a %s, which rebuilds itself with new nodes when it is copied) next to the table self.%s and defines none '
+                     'of %s: f.append(copy.deepcopy(paragraph)) gives the document a paragraph whose table refers to nodes linked into the ORIGINAL paragraph\'s list -- '
+                     '`del clone[(name, 1)]` or `clone.order_first(name)` then changes the original and leaves the copy wrong' % (cname, inner[0][0], inner[0][1], tables[0], ' / '.join(PROT)),
+                     where=init.where)
+    if n < 1:
+        raise AnalysisError('%s: no class that keeps a linked list next to a table of its nodes (the paragraph with duplicated fields changed?)' % PM)
+
+
 def r_final_newline_helper(rep, src):
     """the helper that every re-ordering, every added field and insert / append rely on (they are interpreted with it as a primitive)
     interpreted itself: it terminates the value of the field that stands LAST in the paragraph -- also when that field is a later
@@ -913,8 +956,15 @@ def r_sort(rep, src):
         # (the paragraph's own helper for this is interpreted here, not trusted: whichever way sort_fields terminates the last field)
         heap.hooks.pop('._add_final_newline_if_missing', None)
         heap.class_alias = {'KV': 'Deb822KeyValuePairElement'}
-        heap.hooks['sorted'] = lambda it, args, kw: list(reversed(it.seq(args[0])))
-        heap.hooks['default_field_sort_key'] = lambda it, args, kw: args[0]
+        sort_calls = []
+
+        def sorted_hook(it, args, kw, sort_calls=sort_calls):
+            items_ = it.seq(args[0])
+            kf_ = kw.get('key', args[1] if len(args) > 1 else None)
+            sort_calls.append(None if kf_ is None or not items_ else it.apply(kf_, [items_[0]]))
+            return list(reversed(items_))
+        heap.hooks['sorted'] = sorted_hook
+        heap.hooks['default_field_sort_key'] = lambda it, args, kw: ('default key of', args[0])
         heap.hooks['cast'] = lambda it, args, kw: args[1]
         if cname == DUP:
             names = [B, A, C, B]          # (the last field is a later occurrence of a repeated name)
@@ -961,6 +1011,12 @@ def r_sort(rep, src):
                 problems.append('the key table of the new order does not hold the same fields')
             if sorted(k.cls for k, _ in heap.objs[heap.objs[para.name]['_kvpair_elements'].name]['entries']) != ['a', 'b', 'c']:
                 problems.append('the element table changed')
+        # sort_fields() without a key sorts by the DEFAULT key (which folds the case and puts the usual first fields first): the names
+        # are case-insensitive for equality only, their own order is by spelling (upper case before lower case)
+        if not sort_calls or any(not (isinstance(c_, tuple) and c_ and c_[0] == 'default key of') for c_ in sort_calls):
+            problems.append('sort_fields() without a key sorts by %s instead of the default field key: field names compare equal whatever their case, but they ORDER by '
+                            'their spelling, so "MD5sum" sorts before "Maintainer" and occurrences spelled differently are separated' % (
+                                'the fields themselves' if not sort_calls or sort_calls[0] is None else repr(sort_calls[0])))
         want = list(reversed(before))
         if order != want:
             problems.append('the new field order is %s; sorting the current field order must give %s (the sort is stable with respect to the order the fields have now)' % (order, want))
@@ -1049,3 +1105,5 @@ def check(src, rep, tier):
         C05.r1b_helper(C05.Proxy(r, 'C10.R3'), src)
     rep.guard('C10.R3', helper)
     rep.guard('C10.R3', r_final_newline_helper, src)
+    rep.need('C10.R7', 1)
+    rep.guard('C10.R7', r7_copy_protocol, src)
